@@ -447,3 +447,39 @@ func bounded(d time.Duration, fn func()) bool {
 		return false
 	}
 }
+
+// Regress replays the saved minimal failing cases of earlier findings (regress/<ID>/*.json, the same
+// format as replay files) through the property's own runner before any generation starts: a defect
+// that returns is reported deterministically and within seconds.
+func (r *Rec) Regress(t *testing.T, run func(raw json.RawMessage) *Violation) {
+	dir := os.Getenv("VERIF_REGRESS")
+	if dir == "" {
+		return
+	}
+	files, _ := filepath.Glob(filepath.Join(dir, r.Prop, "*.json"))
+	sort.Strings(files)
+	t.Run("regress", func(t *testing.T) {
+		for _, f := range files {
+			b, err := os.ReadFile(f)
+			if err != nil {
+				continue
+			}
+			var fr failRec
+			if json.Unmarshal(b, &fr) != nil || fr.Property != r.Prop || len(fr.Case) == 0 {
+				continue
+			}
+			var desc interface{}
+			_ = json.Unmarshal(fr.Case, &desc)
+			r.Begin(desc)
+			v := run(fr.Case)
+			if v != nil {
+				// schedule-dependent cases get a second look before they count
+				if v2 := run(fr.Case); v2 == nil {
+					v = nil
+				}
+			}
+			r.Case(desc, true, "regress_case")
+			r.Report(t, desc, v)
+		}
+	})
+}
